@@ -664,4 +664,9 @@ def corpus_chunks():
                    {"anchors.yaml": text_of("anchors"), "r_anchors.yaml": text_of("anchors")}))   # repaired in the library: merging a document into itself never returned
     cases.append(C("diff", ["nulls.yaml", "r_nulls.yaml"],
                    {"nulls.yaml": text_of("nulls"), "r_nulls.yaml": text_of("nulls")}))           # repaired in the library: a list holding null differed from itself
+    # known finding ruamel_block_scalar_indent: a block scalar starting with a space loses it on reload
+    cases.append(C("set", ["--change=a", "--value=  padded", "-F", "literal", "map.yaml"], F("map")))
+    # fixed 9aeb9d5: a value the YAML dumper cannot represent no longer costs the user the file
+    cases.append(C("set", ["-g", "a", "-T", "!x", "map.yaml"], F("map")))
+    cases.append(C("set", ["-g", "a", "-T", "!x", "-b", "map.yaml"], dict(F("map"), **{"map.yaml.bak": "stale\n"})))
     return [cases]
